@@ -170,7 +170,8 @@ def all_subsets():
 def single_groups(quick):
     sets = SETS_Q if quick else all_subsets()
     mtus = MTUS_Q if quick else MTUS_T
-    return [('set', names, mtu) for names in sets for mtu in mtus]
+    shapes = [(n,) for n in S.SHAPES] + [tuple(S.SHAPES)]
+    return [('set', names, mtu) for names in sets for mtu in mtus] + [('shape', names, mtu) for names in shapes for mtu in mtus]
 
 
 def boundary_groups(quick):
@@ -212,6 +213,13 @@ def group_cases(group, quick):
         for h in list(records) + [0x1FFFF]:
             for ids in S.ATTR_LISTS:
                 cases.append(('sa', None, ids, h))
+        return records, cases
+    if kind == 'shape':
+        records = S.shape_records(group[1])
+        cases = [('ss', [S.U16(0x1101)], None, None), ('ssa', [S.U16(0x1101)], [(0, 0xFFFF)], None), ('ssa', [S.U16(0x1101)], [(0x0300, 0x0400)], None)]
+        for h in records:
+            cases.append(('sa', None, [(0, 0xFFFF)], h))
+            cases.append(('sa', None, [0x0300, 0x0301, 0x0400], h))
         return records, cases
     if kind == 'pad':
         _, txn, target, mtu = group
@@ -721,9 +729,30 @@ class StreamBed:
         self.acc = {}
         listener = avdtp.Listener.for_device(w.devices[1])
 
+        self.veto = set()  # acceptor-side application refusals armed by the script ('veto+<op>')
+        self.vetoed = []
+
         def on_connection(server):
             self.acc['server'] = server
-            self.acc['sink'] = server.add_sink(sink_caps())
+            sink = self.acc['sink'] = server.add_sink(sink_caps())
+            rejects = {
+                'set_configuration': lambda: avdtp.Set_Configuration_Reject(avdtp.ServiceCategory.MEDIA_CODEC, avdtp.AVDTP_SEP_IN_USE_ERROR),
+                'open': lambda: avdtp.Open_Reject(avdtp.AVDTP_SEP_IN_USE_ERROR),
+                'start': lambda: avdtp.Start_Reject(sink.seid, avdtp.AVDTP_SEP_IN_USE_ERROR),
+                'suspend': lambda: avdtp.Suspend_Reject(sink.seid, avdtp.AVDTP_SEP_IN_USE_ERROR),
+                'close': lambda: avdtp.Close_Reject(avdtp.AVDTP_SEP_IN_USE_ERROR),
+            }
+            for name, mk in rejects.items():
+                orig = getattr(sink, f'on_{name}_command')
+
+                async def hook(*a, _n=name, _o=orig, _mk=mk, **k):
+                    if _n in self.veto:
+                        self.veto.discard(_n)
+                        self.vetoed.append(_n)
+                        return _mk()
+                    return await _o(*a, **k)
+
+                setattr(sink, f'on_{name}_command', hook)
 
         listener.on('connection', on_connection)
         self.listener = listener
@@ -801,49 +830,79 @@ class StreamBed:
         raise ValueError(op)
 
 
+VETO_CMD = {'configure': 'set_configuration', 'open': 'open', 'start': 'start', 'stop': 'suspend', 'close': 'close'}
+
+
 def run_stream(mode, seq):
     """-> (trace, [(signature, message)])"""
     bed = StreamBed()
-    table = API_TABLE if mode == 'api' else RAW_TABLE
+    table = API_TABLE if mode in ('api', 'veto') else RAW_TABLE
+    sub = 'stream_' + mode
+    if mode == 'veto':
+        mode = 'api'
     out = []
     trace = []
     try:
         model = 'IDLE'
         for i, op in enumerate(seq):
+            veto = op.startswith('veto+')
+            if veto:
+                # the acceptor's application refuses the next <op> command it is asked about (a LEGAL procedure refused by
+                # the peer): the caller must be told, and both ends must still be in one and the same state
+                op = op[5:]
+                bed.veto = {VETO_CMD[op]}
+                bed.vetoed = []
             before = (bed.initiator_state(), bed.acceptor_state())
             status, info = bed.api_op(op) if mode == 'api' else bed.raw_op(op)
+            bed.veto = set()
             ini, acc = bed.initiator_state(), bed.acceptor_state()
-            trace.append([op, status, ini, acc])
-            where = f'{mode} sequence {list(seq)} step {i} ({op} in {model})'
+            trace.append([('veto+' if veto else '') + op, status, ini, acc])
+            where = f'{mode} sequence {list(seq)} step {i} ({"vetoed " if veto else ""}{op} in {model})'
             if status == 'hang':
-                out.append(({'sub': 'stream_' + mode, 'kind': 'procedure_never_completed', 'op': op, 'from': model}, f'{where}: never completed'))
+                out.append(({'sub': sub, 'kind': 'procedure_never_completed', 'op': op, 'from': model}, f'{where}: never completed'))
                 break
+            if veto and bed.vetoed:
+                # API start from CONFIGURED opens first: that part went through
+                mid = 'OPEN' if (model, op) == ('CONFIGURED', 'start') else model
+                if status == 'ok':
+                    out.append(({'sub': sub, 'kind': 'peer_refusal_not_reported', 'op': op, 'from': model}, f'{where}: the acceptor rejected the command but the call succeeded'))
+                    break
+                if ini != acc:
+                    out.append(({'sub': sub, 'kind': 'states_disagree_after_peer_refusal', 'op': op, 'initiator': ini, 'acceptor': acc},
+                                f'{where}: acceptor refused ({info}); initiator {ini} vs acceptor {acc}'))
+                    break
+                if acc != mid:
+                    out.append(({'sub': sub, 'kind': 'refused_procedure_changed_state', 'op': op, 'from': model},
+                                f'{where}: acceptor refused ({info}) but states went {before} -> {(ini, acc)}'))
+                    break
+                model = mid
+                continue
             if op == 'abort':
                 legal, nxt = True, 'IDLE'
             else:
                 legal, nxt = ((model, op) in table), table.get((model, op), model)
             if legal and status != 'ok':
-                out.append(({'sub': 'stream_' + mode, 'kind': 'legal_procedure_refused', 'op': op, 'from': model}, f'{where}: refused with {info}'))
+                out.append(({'sub': sub, 'kind': 'legal_procedure_refused', 'op': op, 'from': model}, f'{where}: refused with {info}'))
                 break
             if not legal and status == 'ok':
-                out.append(({'sub': 'stream_' + mode, 'kind': 'illegal_procedure_accepted', 'op': op, 'from': model},
+                out.append(({'sub': sub, 'kind': 'illegal_procedure_accepted', 'op': op, 'from': model},
                             f'{where}: accepted; states now initiator {ini} acceptor {acc}'))
                 break
             if not legal:
                 now = (ini, acc) if mode == 'api' else (None, acc)
                 was = before if mode == 'api' else (None, before[1])
                 if now != was:
-                    out.append(({'sub': 'stream_' + mode, 'kind': 'refused_procedure_changed_state', 'op': op, 'from': model},
+                    out.append(({'sub': sub, 'kind': 'refused_procedure_changed_state', 'op': op, 'from': model},
                                 f'{where}: refused ({info}) but states went {before} -> {(ini, acc)}'))
                     break
                 continue
             model = nxt
             if acc != model:
-                out.append(({'sub': 'stream_' + mode, 'kind': 'acceptor_state_wrong', 'op': op, 'to': model, 'acceptor': acc},
+                out.append(({'sub': sub, 'kind': 'acceptor_state_wrong', 'op': op, 'to': model, 'acceptor': acc},
                             f'{where}: acceptor is {acc}, expected {model} (initiator {ini})'))
                 break
             if mode == 'api' and op != 'abort' and ini != acc:
-                out.append(({'sub': 'stream_' + mode, 'kind': 'states_disagree', 'op': op, 'initiator': ini, 'acceptor': acc},
+                out.append(({'sub': sub, 'kind': 'states_disagree', 'op': op, 'initiator': ini, 'acceptor': acc},
                             f'{where}: initiator {ini} vs acceptor {acc}'))
                 break
         bed.w.loop.collect_exceptions()
@@ -912,6 +971,15 @@ def run(ctx: core.Context) -> int:
             for r in core.pmap(w_stream, [(mode, p) for p in core.split(seqs, jobs * 4)], jobs):
                 st.merge(r)
             ctx.log(f'stream_{mode}:', st.summary())
+        # application-level refusals by the acceptor: every API sequence with exactly one step vetoed
+        seqs = []
+        for seq in stream_sequences([o for o in API_OPS if o != 'abort'], n, False):
+            for i in range(len(seq)):
+                seqs.append(seq[:i] + ('veto+' + seq[i],) + seq[i + 1:])
+        st = ctx.sub('stream_veto')
+        for r in core.pmap(w_stream, [('veto', p) for p in core.split(seqs, jobs * 4)], jobs):
+            st.merge(r)
+        ctx.log('stream_veto:', st.summary())
 
     if want('sdp'):
         groups = single_groups(quick)
